@@ -112,7 +112,7 @@ pub fn check_emitted(acc: &mut Acc, check: &str, s: &dyn Subject, bytes: &[u8], 
 // -------------------------------------------------------------------------------------------------
 
 pub fn c01(ctx: &mut Ctx, acc: &mut Acc) -> i32 {
-    let n = ctx.n(300, 5000);
+    let n = ctx.n(2000, 20_000);
     let subjects: Vec<String> = ctx.my_subjects(|s| true).iter().map(|s| s.id().to_string()).filter(|id| ctx.is_catalogue(id)).collect();
     for id in subjects {
         let s = ctx.reg.get(&id).unwrap();
@@ -145,7 +145,7 @@ fn is_derived(ctx: &Ctx, id: &str) -> bool {
 }
 
 pub fn c02(ctx: &mut Ctx, acc: &mut Acc) -> i32 {
-    let n = ctx.n(60, 400);
+    let n = ctx.n(300, 1500);
     let subjects: Vec<String> = ctx.my_subjects(|_| true).iter().map(|s| s.id().to_string()).filter(|id| is_derived(ctx, id)).collect();
     for id in subjects {
         let s = ctx.reg.get(&id).unwrap();
@@ -185,8 +185,11 @@ pub fn c02(ctx: &mut Ctx, acc: &mut Acc) -> i32 {
 }
 
 pub fn c04(ctx: &mut Ctx, acc: &mut Acc) -> i32 {
-    let n_cat = ctx.n(150, 2500);
-    let n_der = ctx.n(40, 300);
+    if ctx.shard == 0 {
+        c04_anchors(ctx, acc);
+    }
+    let n_cat = ctx.n(1000, 10_000);
+    let n_der = ctx.n(200, 1000);
     let subjects: Vec<String> = ctx.my_subjects(|_| true).iter().map(|s| s.id().to_string()).collect();
     for id in subjects {
         let s = ctx.reg.get(&id).unwrap();
@@ -239,11 +242,81 @@ pub fn c04(ctx: &mut Ctx, acc: &mut Acc) -> i32 {
     0
 }
 
+
+/// anchors of the reference model in bytes it did not produce: the Scala golden data set and the 14 pinned bytes of the
+/// repository's derivation test
+fn c04_anchors(ctx: &mut Ctx, acc: &mut Acc) {
+    let repo = std::env::var("VERIF_REPO").unwrap_or_else(|_| "/repo".to_string());
+    let path = format!("{repo}/desert_macro/golden/dataset1.bin");
+    let Ok(golden) = std::fs::read(&path) else {
+        acc.inconclusive(format!("golden file {path} not readable"));
+        return;
+    };
+    let Some(s) = ctx.reg.get("TestModel1") else {
+        acc.inconclusive("subject TestModel1 missing");
+        return;
+    };
+    let ty = s.ty();
+    acc.case(Some(sig(&[b"golden", &golden])));
+    let real = dec_val(s, &golden);
+    let reference = refmodel::ref_decode_forms(&ty, &golden);
+    match (&real, &reference) {
+        (Call::Ok(v), Ok((w, used, forms, dedup_forms))) => {
+            let a = canon(&ty, v);
+            let b = canon(&ty, w);
+            // re-encode the reference's parse with the size forms the foreign writer chose
+            let mut at = 0usize;
+            let mut replay = || {
+                let f = forms.get(at).copied().unwrap_or(false);
+                at += 1;
+                f
+            };
+            let mut dat = 0usize;
+            let mut dedup_replay = || {
+                let f = dedup_forms.get(dat).copied().unwrap_or(false);
+                dat += 1;
+                f
+            };
+            let reenc = {
+                let mut e = refmodel::enc::Enc::new();
+                e.unknown_form = Some(&mut replay);
+                e.dedup_full = Some(&mut dedup_replay);
+                e.encode(&ty, w).map(|_| e.out)
+            };
+            let unknown_forms = forms.iter().filter(|f| **f).count();
+            if a.is_ok() && a == b && *used == golden.len() && reenc.as_ref().ok() == Some(&golden) {
+                acc.count("golden_file_decoded_identically_and_reencoded_byte_exact_by_reference");
+                acc.add("golden_file_sequences_in_unknown_length_form", unknown_forms as u64);
+                // and the library's own re-encoding of the decoded value conforms as well
+                let x = s.make(w);
+                if let Call::Ok(bytes) = enc(s, x.as_ref(), Sink::ToByteVec) {
+                    if check_emitted(acc, "C04", s, &bytes, a.as_ref().unwrap()) {
+                        acc.count("golden_value_reencoded_by_library_conforms");
+                    }
+                }
+                acc.sample(J::obj().with("anchor", J::s("Scala golden file dataset1.bin")).with("bytes", J::u(golden.len() as u64)).with("decoded", J::s(a.unwrap().render(200))));
+            } else {
+                acc.violation(
+                    "C04|golden|library_and_reference_disagree".to_string(),
+                    J::obj().with("check", J::s("C04")).with("mode", J::s("golden")).with("values_equal", J::Bool(a.is_ok() && a == b)).with("first_difference", J::s(match &reenc { Ok(r) => { let i = r.iter().zip(golden.iter()).enumerate().position(|(k, (x, y))| k > 8 && x != y).unwrap_or(r.len().min(golden.len())); format!("at {i} of {}/{}: ref {} golden {}", r.len(), golden.len(), refmodel::hex(&r[i.saturating_sub(24)..(i + 12).min(r.len())]), refmodel::hex(&golden[i.saturating_sub(24)..(i + 12).min(golden.len())])) } Err(e) => format!("{e:?}") })).with("consumed_by_reference", J::u(*used as u64)).with("len", J::u(golden.len() as u64)).with(
+                        "reference_reencodes_identically",
+                        J::Bool(reenc.as_ref().ok() == Some(&golden)),
+                    ),
+                );
+            }
+        }
+        (r, _) => acc.violation(
+            format!("C04|golden|{}", if r.is_ok() { "reference_rejects".to_string() } else { r.class() }),
+            J::obj().with("check", J::s("C04")).with("mode", J::s("golden")).with("reference", J::s(format!("{:?}", reference.as_ref().map(|x| x.1).map_err(|e| e.msg.clone())))),
+        ),
+    }
+}
+
 const SUFFIX_BYTES: [u8; 5] = [0x00, 0x01, 0x7f, 0x80, 0xff];
 
 pub fn c07(ctx: &mut Ctx, acc: &mut Acc) -> i32 {
-    let n_cat = ctx.n(60, 1000);
-    let n_der = ctx.n(20, 150);
+    let n_cat = ctx.n(400, 4000);
+    let n_der = ctx.n(100, 600);
     let subjects: Vec<String> = ctx.my_subjects(|_| true).iter().map(|s| s.id().to_string()).collect();
     for id in &subjects {
         let s = ctx.reg.get(id).unwrap();
@@ -319,7 +392,7 @@ pub fn c07(ctx: &mut Ctx, acc: &mut Acc) -> i32 {
         acc.count("types");
     }
     // values written one after another into one stream are read back one after another
-    let rounds = ctx.n(300, 5000);
+    let rounds = ctx.n(3000, 50_000);
     for round in 0..rounds {
         if round as usize % ctx.shards != ctx.shard {
             continue;
@@ -386,8 +459,8 @@ pub fn c07(ctx: &mut Ctx, acc: &mut Acc) -> i32 {
 }
 
 pub fn c08(ctx: &mut Ctx, acc: &mut Acc) -> i32 {
-    let n_cat = ctx.n(30, 400);
-    let n_der = ctx.n(8, 60);
+    let n_cat = ctx.n(100, 1000);
+    let n_der = ctx.n(20, 150);
     let subjects: Vec<String> = ctx.my_subjects(|_| true).iter().map(|s| s.id().to_string()).collect();
     for id in &subjects {
         let s = ctx.reg.get(id).unwrap();
